@@ -5,6 +5,7 @@ import (
 	"encoding/json"
 	"flag"
 	"fmt"
+	"io"
 	"net"
 	"sync"
 	"time"
@@ -258,11 +259,119 @@ func init() {
 			lw.Write(tr)
 			udpRuns++
 		}
+		// the throttle in front of the real proxy handler, the client on a connection that cannot be half-closed
+		for i := 0; i < 2; i++ {
+			tr, err := runThrottleProxy(i)
+			if err != nil {
+				errs = append(errs, err.Error())
+				continue
+			}
+			lw.Write(tr)
+		}
 		if err := lw.Close(); err != nil {
 			return err
 		}
 		return writeJSON(*sum, map[string]any{"runs": len(scens), "udp_runs": udpRuns, "errors": errs, "pull_events": pulls, "samples": samples})
 	})
+}
+
+// plainConn hides everything but net.Conn (as a handler's wrapper that embeds net.Conn does): no CloseWrite
+type plainConn struct{ net.Conn }
+
+// runThrottleProxy: throttle -> proxy -> loopback upstream. The upstream answers, ends its answer (half-close) and
+// keeps reading; the client - on a connection without CloseWrite - goes on sending for a while. The throttled stream
+// must reach the upstream whole (G4): the upstream's end of stream is no reason to cut the client off.
+func runThrottleProxy(idx int) (map[string]any, error) {
+	const slen = 6000
+	stream := vh.MakeStream(int64(4400+idx), slen+8)[:slen]
+	up, err := net.Listen("tcp", "127.0.0.1:0")
+	if err != nil {
+		return nil, err
+	}
+	defer up.Close()
+	rec := vh.NewRecorder(stream)
+	var segs vh.Segs
+	upDone := make(chan struct{})
+	go func() {
+		defer close(upDone)
+		c, err := up.Accept()
+		if err != nil {
+			return
+		}
+		defer c.Close()
+		c.Write([]byte("BYE"))
+		c.(*net.TCPConn).CloseWrite()
+		buf := make([]byte, 4096)
+		for {
+			c.SetReadDeadline(time.Now().Add(5 * time.Second))
+			n, err := c.Read(buf)
+			if n > 0 {
+				segs = rec.NoteRead(segs, buf[:n])
+			}
+			if err != nil {
+				return
+			}
+		}
+	}()
+	ctx, cancel := caddy.NewContext(caddy.Context{Context: context.Background()})
+	defer cancel()
+	routes := []map[string]any{{"handle": []map[string]any{
+		{"handler": "throttle", "read_bytes_per_second": 20000, "read_burst_size": 1000},
+		{"handler": "proxy", "upstreams": []map[string]any{{"dial": []string{up.Addr().String()}}}}}}}
+	b, _ := json.Marshal(routes)
+	var rl layer4.RouteList
+	if err := json.Unmarshal(b, &rl); err != nil {
+		return nil, err
+	}
+	if err := rl.Provision(ctx); err != nil {
+		return nil, err
+	}
+	compiled := rl.Compile(zap.NewNop(), time.Hour, layer4.HandlerFunc(func(*layer4.Connection) error { return nil }))
+	var cl, sv net.Conn
+	if idx%2 == 0 {
+		cl, sv = net.Pipe()
+	} else {
+		ln, err := net.Listen("tcp", "127.0.0.1:0")
+		if err != nil {
+			return nil, err
+		}
+		defer ln.Close()
+		if cl, err = net.Dial("tcp", ln.Addr().String()); err != nil {
+			return nil, err
+		}
+		a, err := ln.Accept()
+		if err != nil {
+			return nil, err
+		}
+		sv = plainConn{a}
+	}
+	cx := layer4.WrapConnection(sv, nil, zap.NewNop())
+	hdone := make(chan struct{})
+	go func() { compiled.Handle(cx); sv.Close(); close(hdone) }()
+	go io.Copy(io.Discard, cl)
+	// the client sends in pieces over about 300 ms (the throttle lets 20 kB/s through), then closes
+	for off := 0; off < slen; off += 1000 {
+		cl.SetWriteDeadline(time.Now().Add(3 * time.Second))
+		if _, err := cl.Write(stream[off : off+1000]); err != nil {
+			break
+		}
+		time.Sleep(20 * time.Millisecond)
+	}
+	cl.Close()
+	select {
+	case <-hdone:
+	case <-time.After(5 * time.Second):
+	}
+	select {
+	case <-upDone:
+	case <-time.After(5 * time.Second):
+	}
+	if segs == nil {
+		segs = vh.Segs{}
+	}
+	return map[string]any{"id": fmt.Sprintf("throttle:proxyup:%d", idx), "scen": map[string]any{"transport": "proxyup", "client": []string{"pipe", "tcp behind a plain wrapper"}[idx%2]},
+		"rate": 0, "burst": 0, "trate": 0, "tburst": 0, "latency": 0, "eps": 2, "ev": []vh.Ev{},
+		"reads": map[string]any{"1": map[string]any{"segs": segs, "slen": slen}}, "t0": map[string]any{"1": 0}, "tt0": 0}, nil
 }
 
 // runThrottleUDP: three datagrams of `size` bytes from one client through the real servePacket loop, a throttle with
